@@ -1171,6 +1171,14 @@ def structured_bases(rng, n_each):
         toks = ["method=0"] + (["expert=1", f"g:compress_connectivity={rng.choice([0, 1])}"] if rng.random() < 0.7 else [])
         lines.append("enc " + " ".join(toks) + " -- " + g.to_text())
         geoms.append(g)
+        # triangle fan whose highest point id is referenced by the very last corner only (entropy-coded and raw
+        # indices): a point count lowered by one leaves exactly that corner out of range
+        n = rng.randint(4, 14)
+        pos = b"".join(struct.pack("<fff", float(i), float(i * i % 5), 0.0) for i in range(n))
+        g = G.Geom(True, n, [(0, i, i + 1) for i in range(1, n - 1)], [G.Attr(G.POSITION, G.DT["f32"], 3, False, 0, n, None, pos)])
+        g.family = "last_corner_fan"
+        lines.append(f"enc method=0 expert=1 g:compress_connectivity={len(geoms) % 2} -- " + g.to_text())
+        geoms.append(g)
     outs = run_encoder(lines, "encs")
     if outs is None:
         return None
